@@ -38,6 +38,8 @@ type Table struct {
 	Degraded []string `json:"degraded,omitempty"`
 	PkgVars  int      `json:"pkgvars"`
 	MapLoops int      `json:"maploops"` // map-range loops put behind the MapKeys seam
+	// SyncShimmed lists library files whose import of "sync" was redirected to the shim.
+	SyncShimmed []string `json:"syncshimmed,omitempty"`
 }
 
 type edit struct {
@@ -138,12 +140,16 @@ func Instrument(root, mod string, env []string) (*Table, error) {
 			rel, _ := filepath.Rel(root, path)
 			c.fc = &fileCtx{path: path, rel: rel, src: src, file: f, tf: p.Fset.File(f.Pos())}
 			c.doFile()
+			nHooks := len(c.fc.edits)
+			c.shimSync(f)
 			if len(c.fc.edits) == 0 {
 				continue
 			}
 			// import on the package clause line
-			c.seq++
-			c.fc.edits = append(c.fc.edits, edit{off: c.fc.tf.Offset(f.Name.End()), text: `; import verifrt "` + mod + `/verifrt"`, seq: -1})
+			if nHooks > 0 {
+				c.seq++
+				c.fc.edits = append(c.fc.edits, edit{off: c.fc.tf.Offset(f.Name.End()), text: `; import verifrt "` + mod + `/verifrt"`, seq: -1})
+			}
 			if err := c.fc.apply(); err != nil {
 				return nil, err
 			}
@@ -604,6 +610,17 @@ func (c *ctx) classify(n ast.Node) (hot, what string) {
 					}
 				}
 			}
+			// a method call on a package-level variable (or on a field of a shared value):
+			// locks, pools, atomics, caches - the instrumenter cannot know whether it
+			// mutates, and the instant after Unlock/Put/Store is exactly where an
+			// atomicity window opens, so these are write-hot (a "post" site follows them)
+			if se, ok := v.Fun.(*ast.SelectorExpr); ok {
+				if sel, ok := c.pkg.TypesInfo.Selections[se]; ok && sel.Kind() == types.MethodVal {
+					if w, ok := c.candidate(c.rootOf(se.X)); ok && !readOnlyMethods[se.Sel.Name] {
+						set("w", w+"."+se.Sel.Name+"()")
+					}
+				}
+			}
 			// a reference to a candidate handed to any call
 			for _, a := range v.Args {
 				r := c.rootOf(a)
@@ -720,4 +737,25 @@ func (c *ctx) mapRange(n *ast.RangeStmt) bool {
 
 func (c *ctx) text(e ast.Node) string {
 	return string(c.fc.src[c.fc.tf.Offset(e.Pos()):c.fc.tf.Offset(e.End())])
+}
+
+// shimSync redirects the file's import of "sync" to the vsync shim (same
+// identifier, wrapped real primitives) so that a client blocked on a lock held by
+// a parked client yields instead of hanging the serialised process.
+func (c *ctx) shimSync(f *ast.File) {
+	for _, im := range f.Imports {
+		if im.Path == nil || im.Path.Value != `"sync"` {
+			continue
+		}
+		name := ""
+		if im.Name == nil {
+			name = "sync "
+		} else if im.Name.Name == "_" || im.Name.Name == "." {
+			continue
+		}
+		off := c.fc.tf.Offset(im.Path.Pos())
+		c.seq++
+		c.fc.edits = append(c.fc.edits, edit{off: off, text: name + `"` + c.mod + `/verifrt/vsync"`, seq: c.seq, del: len(im.Path.Value)})
+		c.tab.SyncShimmed = append(c.tab.SyncShimmed, c.fc.rel)
+	}
 }
